@@ -2,6 +2,7 @@
 import ewho
 import witness
 import ecanon
+import edm
 import efreelist
 import elin
 import eevent
@@ -29,6 +30,9 @@ def run(ctx):
                 "moving them out of their Cell (replace(.., 0)). E-CANON.swap: level_swap releases edges to an old child "
                 "before unlinking it.")
     efreelist.run(ctx, F)
+    ctx.explain("E-CACHE.dm: the apply cache holds uncounted edges; it stays locked (and empty) between pre_gc and post_gc so that "
+                "no entry can name a node the collection frees.")
+    edm.run(ctx, F)
     ctx.explain("E-FREELIST.count: the shared node count that arms the automatic gc: a failed allocation undoes its +1, an "
                 "adjusted thread-local delta is written back or published on every path.")
     n = efreelist.check_count_bookkeeping(ctx, F)
